@@ -16,10 +16,27 @@ in separate child processes and on a long-lived Compiler after other programs;
 circuit bytes and SSA listings are compared, every difference is a violation;
 (4) correspondence of the executable Lean models (DefineConstants order,
 Type.String search, Package.Init block order and anonymous numbering, labels of
-successive compilations) with the real outputs.
+successive compilations) with the real outputs; (5) PROCESS STATE: a
+compilation step is a function of (source, parameters, process state)
+(Model/ProcState.lean); theorems: the step of the code as it is does not depend
+on the process state, a memo table whose object is a function of its key is
+invisible after every history, a coarser key is visible (witness: the divider
+of mpa.Int.Div/Mod keyed by max(x.bits, y.bits)); oracle (harness pstate.go):
+sibling groups of programs per stateful / cache-like facility reachable from the
+compile path (wide constant / % * + - & | ^ << >> and comparisons, run-time
+operators over widths and signedness, string / array constants, library imports
+with native circuits and width-generic functions, one source under different
+input sizes and parameters), every history in its own process (one Compiler,
+fresh Compilers, mixed, cross-facility), all compilations of a program compared
+byte for byte, a difference minimised to a concrete history; correspondence of
+the folded wide constants along real histories (op phist).  A new package-level
+variable in the compile path focuses the widened history search on the
+facilities of its package.
 """
 import hashlib
 import json
+import os
+import sys
 
 import vlib
 
@@ -47,7 +64,24 @@ THEOREMS = [
     "Mpc.C08_old_parse_alias_order_dependent",
     "Mpc.C08_old_history_dependent_init",
     "Mpc.C08_old_history_dependent_labels",
+    "Mpc.C08_step_independent_of_process_state",
+    "Mpc.C08_foldNow_is_uncached_divider",
+    "Mpc.C08_memo_keyed_by_object_history_independent",
+    "Mpc.C08_memo_coarse_key_history_dependent",
+    "Mpc.C08_divider_keyed_by_widths_history_independent",
+    "Mpc.C08_divider_keyed_by_max_width_history_dependent",
 ]
+
+# process-state histories (harness pstate.go): generator families and, per package of the compile path, the
+# families whose programs reach package-level state of that package beyond what every compilation reaches.
+# A new / changed package-level variable in package P focuses the widened history search on PKG_FAMILIES[P].
+PSTATE_FAMILIES = ["wide-const-divmod", "wide-const-arith", "wide-const-bits", "runtime-ops", "const-aggregates",
+                   "library", "sizes-params"]
+PKG_FAMILIES = {
+    "compiler/mpa": ["wide-const-divmod", "wide-const-arith", "wide-const-bits"],
+    "compiler/circuits": ["wide-const-divmod", "wide-const-arith", "runtime-ops", "library"],
+    "circuit": ["wide-const-divmod", "wide-const-arith", "runtime-ops", "library", "sizes-params"],
+}
 
 # ------------------------------------------------------------------ expected facts
 # Every `range` over a map in compiler, compiler/ast, compiler/ssa,
@@ -311,6 +345,55 @@ def distinct_ops(ctx, ops):
             ctx.distinct.add(hashlib.sha1(line.encode()).digest())
 
 
+def replay_request():
+    """bin/check C08 --replay F: (absolute path, parsed file) when F holds a process-state history."""
+    if "--replay" not in sys.argv:
+        return None, None
+    try:
+        f = sys.argv[sys.argv.index("--replay") + 1]
+        f = f if os.path.isabs(f) else os.path.join(vlib.VERIF, f)
+        doc = json.load(open(f))
+    except Exception:
+        return None, None
+    fl = doc.get("failure") or {}
+    if fl.get("sig") == "c08-process-state-history" and fl.get("replay_spec"):
+        # finish() rewrites the replay file: hand the harness a copy
+        cp = os.path.join(vlib.VERIF, ".work", "C08-replay-%d.json" % os.getpid())
+        json.dump(doc, open(cp, "w"))
+        return cp, doc
+    return None, None
+
+
+def new_pkgvar_packages(facts):
+    """Packages of the compile path with a package-level variable that the table does not know (multiset)."""
+    try:
+        got = [tuple(x) for x in facts["semantic"]["pkg_var_shapes"]]
+    except Exception:
+        return []
+    want = [tuple(x) for x in pkg_var_shapes()]
+    for w in want:
+        if w in got:
+            got.remove(w)
+    return sorted({g[0] for g in got})
+
+
+def pstate_run(ctx, seed, extra="", tag="", prefix="", timeout=900):
+    ops, out, meta = ctx.run_hx("pstate", 8, seed=seed, extra_args=(["-extra", extra] if extra else []), tag=tag,
+                                timeout=timeout)
+    ctx.absorb_meta(meta, prefix=prefix)
+    ctx.coverage.setdefault("pstate_runs", []).append(
+        {k: meta.get(k) for k in ("pstate_programs", "pstate_processes", "pstate_processes_ok", "pstate_ms",
+                                  "pstate_slowest_programs")} | {"seed": seed, "options": extra})
+    ctx.oblige("all child processes of the process-state histories (seed %d%s) returned results" % (seed, " " + extra if extra else ""),
+               meta.get("pstate_processes") is not None and meta.get("pstate_processes_ok") == meta.get("pstate_processes"),
+               json.dumps(meta.get("harness_log", ""))[:2000])
+    if os.path.exists(ops) and os.path.getsize(ops) > 0:
+        ctx.correspond("folded wide constants of every compilation of real one-process histories = "
+                       "outputsAlong stepNow (seed %d%s)" % (seed, " " + extra if extra else ""), ops, out)
+        distinct_ops(ctx, ops)
+    return meta
+
+
 def run(ctx):
     ctx.prove("MpcVerif.Props.C08", THEOREMS)
     if ctx.tier == "thorough":
@@ -324,6 +407,45 @@ def run(ctx):
                        m.get("facts_error") or m.get("harness_log", ""))
         else:
             check_facts(ctx, m.get("facts"))
+        # ---- --replay of a process-state history: exactly the recorded history and its reference, each in a
+        # fresh process; a reproduced difference decides the run
+        rp, _ = replay_request()
+        if rp:
+            _, _, rm = ctx.run_hx("pstate", 8, extra_args=["-extra", "replay=" + rp], tag="-replay", timeout=600)
+            ctx.absorb_meta(rm, prefix="replay_")
+            ctx.coverage["replayed_history"] = rm.get("replay") or rm.get("replay_error")
+            print("replayed history: %s" % json.dumps(rm.get("replay") or rm.get("replay_error"))[:1500])
+            os.remove(rp)
+            if ctx.fails:
+                ctx.coverage["rule"] = "replay of one recorded process-state history (the full check was not run)"
+                return ctx.finish("Replay: the recorded history and its reference were re-run, each in a fresh process; "
+                                  "the outputs of the same program still differ.")
+            print("the replayed history no longer gives a different output; running the full check")
+        # ---- process-state histories over sibling groups (every history in its own process)
+        pm = pstate_run(ctx, ctx.seed)
+        c0 = ctx.coverage.get("counters", {})
+        ctx.oblige("process-state histories: every generator family compiled programs (>= 90% of all compile), processes of "
+                   "all four kinds ran, comparisons within a process and across processes, long-lived and fresh Compilers",
+                   all(c0.get("pstate_programs_compiled_" + f, 0) > 0 for f in PSTATE_FAMILIES) and
+                   10 * c0.get("pstate_programs_compiled", 0) >= 9 * (pm.get("pstate_programs") or 1) and
+                   all(c0.get("pstate_processes_" + k, 0) > 0 for k in ("one-compiler", "fresh-compilers", "mixed", "cross-facility")) and
+                   all(c0.get(k, 0) > 0 for k in ("pstate_comparisons_same_process", "pstate_comparisons_cross_process",
+                                                  "pstate_compilations_fresh_compiler", "pstate_compilations_long_lived_compiler")),
+                   json.dumps({k: v for k, v in c0.items() if k.startswith("pstate_")}))
+        ctx.oblige("model ops of kind phist were produced (folded constants along histories)", c0.get("op_phist", 0) > 0,
+                   json.dumps({k: v for k, v in c0.items() if k.startswith("op_phist")}))
+        newpk = new_pkgvar_packages(m.get("facts") or {})
+        ctx.coverage["packages_with_new_package_level_variables"] = newpk
+        if ctx.widen:
+            # widened history search: a package-level variable the table does not know (state that could survive a
+            # compilation) focuses the search on the facilities of its package; other drifts widen over all families
+            fams = sorted({f for pk in newpk for f in PKG_FAMILIES.get(pk, PSTATE_FAMILIES)}) or PSTATE_FAMILIES
+            ctx.coverage["widened_pstate_focus"] = fams
+            for k in range(1, 4):
+                if ctx.fails:
+                    break
+                pstate_run(ctx, ctx.seed + 100 * k, extra="focus=%s;scale=%d;heavy=1" % (",".join(fams), 1 if len(fams) > 3 else 2),
+                           tag="-widen", prefix="widen%d_" % k)
         runs = [(ctx.seed, 6 if quick else 8, [])]
         if not quick:
             # further seeds: light corpus (quick-tier programs, 40 generated ones each)
@@ -350,7 +472,7 @@ def run(ctx):
             ctx.correspond("widened: model ops (seed %d)" % (ctx.seed + 500), ops, out)
             distinct_ops(ctx, ops)
         c = ctx.coverage.get("counters", {})
-        ctx.coverage["programs"] = progs
+        ctx.coverage["programs"] = progs + (pm.get("pstate_programs") or 0)
         ctx.evaluations += sum(v for k, v in c.items() if k.endswith("compilations"))
         ctx.oblige("corpus: at least 25 programs compiled, of which at least 8 with two or more package initialiser blocks",
                    sum(v for k, v in c.items() if k.endswith("programs_compiled")) >= 25 and
@@ -381,8 +503,13 @@ def run(ctx):
         "3x on one Compiler, 2-4x on fresh instances, once per child process (different GOMAXPROCS/GOGC), once on a "
         "long-lived Compiler after other programs, and (importing programs) after FAILING compilations of variants "
         "of itself (parse error, unknown import, undefined name at start/end of main, error inside an imported "
-        "function instance) through Compile / CompileFile / CompileSSA / Stream and after CompileSSA of itself; 3 parameter variants (default, prune, prune+GMW). distinct = "
-        "distinct dc/init/hist op lines")
+        "function instance) through Compile / CompileFile / CompileSSA / Stream and after CompileSSA of itself; 3 parameter variants (default, prune, prune+GMW). "
+        "Process-state histories: per facility family (wide-const-divmod/-arith/-bits, runtime-ops, const-aggregates, "
+        "library, sizes-params) seeded sibling groups of 7-8 programs that differ in one attribute of the request "
+        "(operand sizes with equal maximum, swapped sizes, values, type width, signedness, operator set, input sizes, "
+        "parameter variant) plus an evictor; per group three child processes (one Compiler forward/reversed/shuffled; "
+        "fresh Compilers reversed/forward; mixed) and two processes over all groups; all compilations of one program "
+        "compared (circuit bytes + SSA listing). distinct = distinct dc/init/hist/phist op lines")
     ctx.trusted += vlib.DEFAULT_TRUSTED + [
         "go/parser + go/types fact extractor in harness/cmd/c08/facts.go (source importer for the standard library)",
         "the SSA-listing canonicaliser/classifier in harness/cmd/c08/compile.go (names the kind of a difference in the report; every difference is a violation)",
@@ -393,6 +520,12 @@ def run(ctx):
         "inherits from the Compiler (fields params, packages, pkgPath pinned by fact; pkgPath is a resolved directory "
         "name, params is caller-owned) and package-level variables of the compile path are not written by a "
         "compilation (their list is pinned; writes are only observed by the oracle)",
+        "C08_step_independent_of_process_state is about stepNow, which by definition does not look at the process "
+        "state: it transfers to the code through the pinned list of package-level variables (none is a cache) and is "
+        "probed by the process-state oracle on the enumerated facility families; facilities outside these families "
+        "(and process state outside Go package-level variables, e.g. files) are not covered",
+        "the value model of wide constant folds (Model/Mpa.lean large paths, owned by C12) is used for unsigned "
+        "uint<w> contexts with non-negative literals only",
         "order dependence outside the enumerated map-range sites (os.File.Readdirnames order of a package directory, "
         "pointer values, scheduler) is only observed by the cross-process oracle, not proved absent",
         "Params.SymbolIDs (the `intern` builtin) is documented, caller-owned state that a compilation extends; it is "
@@ -420,6 +553,10 @@ def run(ctx):
         "programs the DefineConstants order, Type.String, the init-block order + anonymous numbering from the import "
         "graph alone (imports handed over in reverse order), and the labels of 3 successive compilations. Oracle: "
         "circuit bytes and SSA listings across same-instance / fresh-instance / cross-process / history compilations "
-        "including histories with failing compilations and mixed entry points; "
+        "including histories with failing compilations and mixed entry points; process-state histories over sibling "
+        "groups per stateful facility of the compile path, each history in its own process, a difference minimised "
+        "to a concrete history (replay = that history + the program alone in a fresh process; bin/check --replay "
+        "re-runs exactly these two processes); the Lean step model (source, parameters, process state) reproduces the "
+        "folded wide constants of every compilation of the real histories; "
         "any difference is a violation (no known finding is tolerated any more); the replay holds the program and both "
         "SSA listings.")
